@@ -20,7 +20,8 @@ use retrofire_core::render::raster::Frag;
 use retrofire_core::render::{render, Batch, Camera, Context, Model, NdcToScreen, View, ViewToProj, World};
 use retrofire_core::geom::Mesh;
 use retrofire_core::util::buf::Buf2;
-use retrofire_core::math::color::Color4;
+use retrofire_core::math::color::{Color4, Color4f, Hsla, Rgba};
+use retrofire_core::math::approx::ApproxEq;
 
 #[derive(Copy, Clone, Debug, Default, PartialEq, Eq)] pub struct BA;
 #[derive(Copy, Clone, Debug, Default, PartialEq, Eq)] pub struct BB;
@@ -36,6 +37,8 @@ fn pj<S>() -> Mat4x4<RealToProj<S>> { Mat4x4::identity() }
 fn cf<Sp>() -> Color<[f32; 3], Sp> { [0.1, 0.2, 0.3].into() }
 fn c8<Sp>() -> Color<[u8; 3], Sp> { [1, 2, 3].into() }
 fn ang() -> Angle { degs(30.0) }
+fn c4f<Sp>() -> Color<[f32; 4], Sp> { [0.1, 0.2, 0.3, 0.4].into() }
+fn c48<Sp>() -> Color<[u8; 4], Sp> { [1, 2, 3, 4].into() }
 fn is<T>(_: T) {}
 '''
 
@@ -211,6 +214,9 @@ t("angle.max", "let _ = ang().max({0});", [AN], isang)
 # matrix side vs dimension of the map it is tagged with (compile-time assertion inside transpose(): evaluated only when
 # code is generated, hence the [mono] mark - these programs are built, not just checked)
 t("[mono] NxN matrix of a DIM-d map .transpose()", "let _ = retrofire_core::math::mat::Matrix::<[[f32; {0}]; {0}], RealToReal<{1}, BA, BB>>::identity().transpose();", [["2", "3", "4"], ["2", "3"]], lambda n, d: int(n) >= int(d))
+t("angle.approx_eq", "let _ = ang().approx_eq(&{0});", [AN], isang)
+t("angle.approx_eq_eps tolerance", "let _ = ang().approx_eq_eps(&ang(), &{0});", [AN], isang)
+t("angle.approx_eq_eps other", "let _ = ang().approx_eq_eps(&{0}, &ang());", [AN], isang)
 # --- colours --------------------------------------------------------------------------------------------
 t("colorf.add", "let _ = cf::<{0}>().add(&cf::<{1}>());", [CS, CS], eq)
 t("colorf.sub", "let _ = cf::<{0}>().sub(&cf::<{1}>());", [CS, CS], eq)
@@ -227,6 +233,18 @@ t("c8.to_hsl", "let _ = c8::<{0}>().to_hsl();", [CS], lambda a: a == "Rgb")
 t("c8.to_rgb", "let _ = c8::<{0}>().to_rgb();", [CS], lambda a: a == "Hsl")
 t("c8.to_rgb_u32", "let _ = c8::<{0}>().to_rgb_u32();", [CS], lambda a: a == "Rgb")
 t("explicit conversion chain", "let _: Color<[f32; 3], {1}> = cf::<Rgb>().to_linear().to_srgb().to_hsl().to_rgb(){0};", [["", ".to_linear()", ".to_hsl()"], CS], lambda a, b: {"": "Rgb", ".to_linear()": "LinRgb", ".to_hsl()": "Hsl"}[a] == b)
+# four-channel colours: every conversion keeps / switches the tag as documented
+C4 = ["Rgba", "Hsla"]
+t("c4f.to_hsla", "let _: Color<[f32; 4], {1}> = c4f::<{0}>().to_hsla();", [C4, C4], lambda a, b: a == "Rgba" and b == "Hsla")
+t("c4f.to_rgba", "let _: Color<[f32; 4], {1}> = c4f::<{0}>().to_rgba();", [C4, C4], lambda a, b: a == "Hsla" and b == "Rgba")
+t("c48.to_hsla", "let _: Color<[u8; 4], {1}> = c48::<{0}>().to_hsla();", [C4, C4], lambda a, b: a == "Rgba" and b == "Hsla")
+t("c48.to_rgba", "let _: Color<[u8; 4], {1}> = c48::<{0}>().to_rgba();", [C4, C4], lambda a, b: a == "Hsla" and b == "Rgba")
+t("c4f.to_hsl (drop alpha)", "let _: Color<[f32; 3], {1}> = c4f::<{0}>().to_hsl();", [C4, CS], lambda a, b: a == "Hsla" and b == "Hsl")
+t("c4f.to_color4", "let _ = c4f::<{0}>().to_color4();", [C4], lambda a: a == "Rgba")
+t("c48.to_rgba_u32", "let _ = c48::<{0}>().to_rgba_u32();", [C4], lambda a: a == "Rgba")
+t("c4f.lerp", "let _ = c4f::<{0}>().lerp(&c4f::<{1}>(), 0.5);", [C4, C4], eq)
+t("c4f.lerp(to_hsla) (never)", "let _ = c4f::<Rgba>().lerp(&c4f::<Rgba>().to_hsla(), 0.5);", [[""]], lambda a: False)
+t("cf.to_rgba tag", "let _: Color<[f32; 4], {1}> = cf::<{0}>().to_rgba();", [CS, C4], lambda a, b: a == "Rgb" and b == "Rgba")
 t("colorf + vec3 (never)", "let _ = cf::<Rgb>().add(&v3::<{0}>());", [B], lambda a: False)
 # --- render(): vertex shader output must be a projective vertex; viewport matrix must be NDC->screen --------
 RENDER = '''let vs = |v: Vertex3<f32, {0}>, m: &Mat4x4<{1}>| vertex({2}, v.attrib);
